@@ -2,7 +2,7 @@
 From Coq Require Import ZArith String.
 From Coq Require Extraction.
 From Coq Require Import ExtrOcamlBasic.
-From C01 Require Import Model Table.
+From C01 Require Import Model Table Table2.
 Extraction Language OCaml.
 Cd "ocaml".
 Extraction "model.ml" run.
